@@ -61,7 +61,7 @@ S_INTERP = [K("k3::S-Interp-text"), K("k3::S-Interp-off"), K("k3::S-Interp-lines
 S_I18N = [K("k3::S-Translate-name"), K("k3::S-Translate-name-condition"), K("k3::S-Translate-id"), K("k3::S-Translate-empty"),
           K("k3::S-I18nDomain"), K("k3::S-I18nContext"), K("k3::S-I18nTarget"), K("k3::S-I18nAttributes"), K("k3::S-I18nAttributes-two"),
           K("k3::S-Content-translate")]
-S_METAL = [K("k3::S-UseExternal"), K("k3::S-MacroUseInternal"), K("k3::S-MacroBody"), K("k3::S-TwoMacros"),
+S_METAL = [K("k3::S-UseExternal"), K("k3::S-TemplateBody-slot"), K("k3::S-MacroUseInternal"), K("k3::S-MacroBody"), K("k3::S-TwoMacros"),
            K("k3::S-MacroBody-slot-define"),
            K("k3::S-MacroUseInternal-after-expr")]
 K2Q = [K("compiler.py::K2.__quote"), K("compiler.py::K2.__quote@char"), K("compiler.py::K2.__convert"),
@@ -143,6 +143,8 @@ PROPS = {
         "to skip empty content; domain/context/target are set for the subtree and restored; message "
         "objects are offered to translate exactly once by the conversion routine (K2).",
         S_I18N + [K("compiler.py::K2.__quote"), K("k3::S-OnError-in-translate"),
+                  # the wrapper render() puts around the translation function when an encoding is set
+                  K("zpt/template.py::PageTemplate.render.translate"),
                   U('pyvc.regexlang', 'whitespace_unit', 'prelude.__re_whitespace')] + [FRESH],
         ["i18n:attributes and implicit translation", "simple_translate interpolation",
          "nested translate blocks (by induction through HoleC)"]),
